@@ -23,7 +23,7 @@ import (
 
 type ConstSpec struct {
 	Dir  string `json:"dir"`  // package dir relative to root
-	Root string `json:"root"` // "repo" | "spec" | "ekm"
+	Root string `json:"root"` // "repo" | "spec" | "ekm" | "fastssz"
 	Name string `json:"name"`
 	Lean string `json:"lean"`
 	Kind string `json:"kind"` // nat | int | bytes (string as byte list) | str
@@ -475,6 +475,7 @@ func main() {
 	}
 	roots["spec"] = filepath.Join(mc, "github.com/bloxapp/ssv-spec@v0.3.7")
 	roots["ekm"] = filepath.Join(mc, "github.com/bloxapp/eth2-key-manager@v1.4.0")
+	roots["fastssz"] = filepath.Join(mc, "github.com/ferranbt/fastssz@v0.1.3")
 	out := os.Args[3]
 	ents, err := os.ReadDir(os.Args[1])
 	if err != nil {
